@@ -634,6 +634,14 @@ func (r *Runner) exec(cmd string, t *toks) string {
 			return r.ok("error")
 		}
 		return r.ok(showEnt(e2))
+	case "setgen":
+		i, g := t.nat(), t.nat()
+		t.end()
+		if i >= w.Stats().Entities.Total+1 {
+			panic(badRef{})
+		}
+		w.VerifSetGeneration(uint32(i), uint32(g))
+		return r.ok("")
 	case "relget":
 		e := r.ent(t, re)
 		rl := r.idOf(t.nat())
